@@ -59,6 +59,9 @@ IsNameCont(c, k)  == IsXidCont(c, k)
 \* Concatenate a sequence of one-character strings into one string, upper-casing
 RECURSIVE UpStr(_)
 UpStr(s) == IF s = <<>> THEN "" ELSE Up(Head(s)) \o UpStr(Tail(s))
+\* the characters of s as one string, unchanged (used by lib/model_mutants.py)
+RECURSIVE CatStr(_)
+CatStr(s) == IF s = <<>> THEN "" ELSE Head(s) \o CatStr(Tail(s))
 
 RECURSIVE Str(_)
 Str(s) == IF s = <<>> THEN "" ELSE Head(s) \o Str(Tail(s))
